@@ -226,6 +226,28 @@ def h_deepcopy_registry(eng):
         eng.prove(True, "copy-objects-do-not-mix")
     else:
         eng.fail("copy-objects-mix")
+    # ... in any combination of units and quantities, in both orders, also through a second copy
+    import operator
+
+    cp2 = copy.deepcopy(cp)
+    for tag, r1, r2 in (("src-copy", src, cp), ("copy-src", cp, src), ("src-copy2", src, cp2), ("copy2-src", cp2, src), ("copy-copy2", cp, cp2), ("copy2-copy", cp2, cp)):
+        operands = {
+            "unit*unit": lambda: r1.Unit("m") * r2.Unit("s"),
+            "unit/unit": lambda: r1.Unit("m") / r2.Unit("s"),
+            "unit*quantity": lambda: r1.Unit("m") * r2.Quantity(x, "s"),
+            "quantity*unit": lambda: r1.Quantity(x, "m") * r2.Unit("s"),
+            "quantity/unit": lambda: r1.Quantity(x, "m") / r2.Unit("s"),
+            "unit/quantity": lambda: r1.Unit("m") / r2.Quantity(1, "s"),
+            "unit<unit": lambda: r1.Unit("m") < r2.Unit("u"),
+            "quantity-quantity": lambda: r1.Quantity(x, "m") - r2.Quantity(x, "m"),
+        }
+        for oname, fn in operands.items():
+            try:
+                fn()
+            except ValueError:
+                eng.prove(True, f"no-mixing:{tag}:{oname}")
+            else:
+                eng.fail(f"mixed-silently:{tag}:{oname}", stop=False)
 
 
 def _frozen_path(pth):
